@@ -119,6 +119,7 @@ let res_str = function
 let w_max_gap = ref 0
 let w_insertions = ref 0
 let w_below = ref 0
+let w_gap_over = ref 0   (* steps after which last_round > (next round to process before the step) + 5: Window.gap_stepb false *)
 let node_of id = try Hashtbl.find nodes id with Not_found -> failwith ("unknown node " ^ id)
 
 let handle check diff (toks : string list) (raw : string) : bool =
@@ -152,6 +153,7 @@ let handle check diff (toks : string list) (raw : string) : bool =
     check "I" raw expect (res_str res);
     (* the window of validator-set changes (Model/Window.v; known finding C10-window): statistics over every insertion *)
     let gap = int_of_z (Window.round_gap st') in
+    if not (Window.gap_stepb st0 st') then incr w_gap_over;
     if gap > !w_max_gap then w_max_gap := gap;
     let ne = Stdlib.List.length (Window.new_entries st0 st') in
     if ne > 0 then begin
